@@ -88,10 +88,30 @@ fn show_entries(mut l: Vec<(String, String)>) -> String {
     l.iter().map(|(n, s)| format!("{n}={s}")).collect::<Vec<_>>().join(",")
 }
 
+/// The environment a child process would get: built by the real `compose_std_command`
+/// (`iter_exported` plus the filters applied there), restricted to the tracked names.
+fn child_env<SE: brush_core::ShellExtensions>(
+    context: &brush_core::ExecutionContext<'_, SE>,
+) -> Vec<(String, String)> {
+    let no_args: [&str; 0] = [];
+    let mut child = vec![];
+    if let Ok(cmd) = brush_core::commands::compose_std_command(context, "env", "env", &no_args, false) {
+        for (k, v) in cmd.get_envs() {
+            let k = k.to_string_lossy().into_owned();
+            if let Some(v) = v {
+                if tracked(&k) {
+                    child.push((k, esc(&v.to_string_lossy())));
+                }
+            }
+        }
+    }
+    child
+}
+
 /// Canonical dump of an environment; `strip_top` drops the (empty) command scope of the probing builtin.
-fn dump_env<SE: brush_core::ShellExtensions>(
+fn dump_env(
     env: &ShellEnvironment,
-    shell: &brush_core::Shell<SE>,
+    child: Vec<(String, String)>,
     strip_top: bool,
     status: &str,
 ) -> String {
@@ -135,12 +155,6 @@ fn dump_env<SE: brush_core::ShellExtensions>(
             view.push((name.clone(), show_var_json(&vj)));
         }
     }
-    let mut child = vec![];
-    for (k, v) in env.iter_exported() {
-        if tracked(k) && v.value().is_set() {
-            child.push((k.clone(), esc(v.value().to_cow_str(shell).as_ref())));
-        }
-    }
     format!("S={status} {} V[{}] X[{}]", scopes.join("/"), show_entries(view), show_entries(child))
 }
 
@@ -160,7 +174,8 @@ impl brush_core::builtins::SimpleCommand for DumpCmd {
         args: I,
     ) -> Result<brush_core::ExecutionResult, brush_core::Error> {
         let keep = args.into_iter().any(|a| a.as_ref() == "keep");
-        let s = dump_env(context.shell.env(), context.shell, !keep, "-");
+        let child = child_env(&context);
+        let s = dump_env(context.shell.env(), child, !keep, "-");
         DUMPS.lock().unwrap().push(s);
         Ok(brush_core::ExecutionResult::success())
     }
@@ -302,7 +317,7 @@ fn api_op(env: &mut ShellEnvironment, tok: &str) -> Option<bool> {
 
 #[tokio::main(flavor = "multi_thread", worker_threads = 2)]
 async fn main() {
-    let dummy = vh::new_shell(false, &[]).await;
+    let mut dummy = vh::new_shell(false, &[]).await;
     for line in vh::lines() {
         let (mode, rest) = match line.split_once(' ') {
             Some(x) => x,
@@ -315,7 +330,16 @@ async fn main() {
                 let mut last = true;
                 for tok in rest.split(' ').filter(|t| !t.is_empty()) {
                     if tok == "D" {
-                        outs.push(dump_env(&env, &dummy, false, if last { "1" } else { "0" }));
+                        // the child environment as the real command composer builds it from this environment
+                        *dummy.env_mut() = env.clone();
+                        let params = dummy.default_exec_params();
+                        let context = brush_core::ExecutionContext {
+                            shell: &mut dummy,
+                            command_name: "env".to_string(),
+                            params,
+                        };
+                        let child = child_env(&context);
+                        outs.push(dump_env(&env, child, false, if last { "1" } else { "0" }));
                     } else {
                         match api_op(&mut env, tok) {
                             Some(ok) => last = ok,
